@@ -137,6 +137,12 @@ V("c15-remove-default-guard", "C15", REG, "    for element in elements:\n       
 V("c15-duplicate-guard", "C15", REG, "    if not (symbol not in _ELEMENTS or _ELEMENTS[symbol] == Class):\n        raise KeyError(\n            f\"An element with the symbol '{symbol}' ({_ELEMENTS[symbol]}) has already been registered before this attempt to register '{Class}'!\"\n        )\n\n", "", "fire", "duplicate-guard")
 V("c15-validation-skipped", "C15", REG, "    if kwargs.get(\"validate_impedances\", _VALIDATE_IMPEDANCES):\n        _validate_impedances(Class)\n", "    if kwargs.get(\"validate_impedances\", False):\n        _validate_impedances(Class)\n", "fire", "_initialize_element:validation")
 V("c15-imag-not-compared", "C15", REG, "    if not allclose(Z_func.imag, Z_sympy.imag):\n        raise ValueError(\n            f\"The imaginary parts of the results of the _impedance method and SymPy expression do not match for '{Class}'!\"\n        )\n", "", "fire", "_validate_impedances:comparison")
+V("c15-imag-vs-real", "C15", REG, "    if not allclose(Z_func.imag, Z_sympy.imag):", "    if not allclose(Z_func.imag, Z_sympy.real):", "fire", "_validate_impedances:comparison")
+V("c15-validate-unsubstituted", "C15", REG, "    expr: Expr = element.to_sympy(substitute=True)\n    f: Frequencies = array([1e6", "    expr: Expr = element.to_sympy()\n    f: Frequencies = array([1e6", "fire", "_validate_impedances:comparison")
+V("c15-restore-wrong-snapshot", "C15", REG, "            element.set_default_values(**_DEFAULT_ELEMENT_PARAMETERS[key])", "            element.set_default_values(**_DEFAULT_ELEMENT_PARAMETERS[sorted(_DEFAULT_ELEMENT_PARAMETERS)[0]])", "fire", "defaults:restore")
+V("c15-restore-first-only", "C15", REG, "            element.set_default_values(**_DEFAULT_ELEMENT_PARAMETERS[key])\n", "            element.set_default_values(**_DEFAULT_ELEMENT_PARAMETERS[key])\n            break\n", "fire", "defaults:restore")
+V("c15-benign-compare-loop", "C15", REG, "    if not allclose(Z_func.imag, Z_sympy.imag):\n        raise ValueError(\n            f\"The imaginary parts of the results of the _impedance method and SymPy expression do not match for '{Class}'!\"\n        )\n", "    for _part in (\"imag\",):\n        if allclose(getattr(Z_func, _part), getattr(Z_sympy, _part)):\n            continue\n        raise ValueError(\n            f\"The imaginary parts of the results of the _impedance method and SymPy expression do not match for '{Class}'!\"\n        )\n", "silent")
+V("c15-benign-restore-pairs", "C15", REG, "    for key, element in _DEFAULT_ELEMENTS.items():\n        if element in elements:\n            element.set_default_values(**_DEFAULT_ELEMENT_PARAMETERS[key])", "    for element, _values in [(e, _DEFAULT_ELEMENT_PARAMETERS[k]) for k, e in _DEFAULT_ELEMENTS.items() if e in elements]:\n        element.set_default_values(**_values)", "silent")
 V("c15-tokenizer-uppercase", "C15", "circuit/tokenizer.py", "            valid_chars = ascii_lowercase + digits + \"_\"\n", "            valid_chars = ascii_letters + digits + \"_\"\n", "fire", "alphabet:uppercase")
 V("c15-import-time-table", "C15", "circuit/parser.py", "Stackable = Union[Token, Element, Connection]\n", "Stackable = Union[Token, Element, Connection]\n_TABLE = get_elements(private=True)\n", "fire", "import-time-snapshot")
 V("c15-benign-iterate-items", "C15", REG, "        for key in list(_ELEMENTS.keys()):\n            if _ELEMENTS[key] is element:", "        for key, _value in list(_ELEMENTS.items()):\n            if _value is element:", "silent")
